@@ -373,3 +373,100 @@ def reuse_obligations(ctx, R, fn, new_rule, select=None):
             new_rule, o.construct, o.ok, o.expected, o.found, o.file,
             o.line, o.path, o.nontrivial))
     return n
+
+
+def canon(f, e, depth=0, _seen=None):
+    """Canonical, spelling-independent rendering of where a value comes
+    from: parameters are argN, loop variables <iter>[], singly defined
+    locals are replaced by their definition, calls keep the callee's last
+    name.  Used to key reviewed tables by data flow instead of by names."""
+    _seen = _seen or set()
+    if depth > 10:
+        return '?'
+    if isinstance(e, ast.Constant):
+        return repr(e.value)
+    if isinstance(e, ast.Name):
+        g = f
+        while g is not None:
+            if e.id in g.params:
+                return '%sarg%d' % ('^' if g is not f else '',
+                                    g.params.index(e.id))
+            g = g.parent
+        if e.id in _seen:
+            return '@' + 'rec'
+        def loop_binding(nodes):
+            for n in nodes:
+                pairs = []
+                if isinstance(n, ast.For):
+                    pairs = [(n.target, n.iter)]
+                elif isinstance(n, (ast.ListComp, ast.SetComp, ast.DictComp,
+                                    ast.GeneratorExp)):
+                    pairs = [(g_.target, g_.iter) for g_ in n.generators]
+                for tgt, it in pairs:
+                    if e.id in [x.id for x in ast.walk(tgt)
+                                if isinstance(x, ast.Name)]:
+                        return it
+            return None
+        defs = [a.value for a in own_nodes(f.node)
+                if isinstance(a, ast.Assign) and any(
+                    isinstance(t, ast.Name) and t.id == e.id
+                    for t in a.targets)]
+        # a loop / comprehension that encloses this use binds the name ...
+        enclosing = []
+        cur = getattr(e, '_parent', None)
+        while cur is not None and cur is not f.node:
+            enclosing.append(cur)
+            cur = getattr(cur, '_parent', None)
+        it = loop_binding(enclosing)
+        # ... unless the name is (re)assigned inside that same loop
+        if it is not None and not any(
+                any(a is x for x in ast.walk(enc))
+                for enc in enclosing[:1] for a in []):
+            inner = [a for a in own_nodes(f.node) if isinstance(a, ast.Assign)
+                     and any(isinstance(t, ast.Name) and t.id == e.id
+                             for t in a.targets)
+                     and any(a is x for enc in enclosing
+                             if isinstance(enc, ast.For)
+                             for x in ast.walk(enc))]
+            if not inner:
+                return canon(f, it, depth + 1, _seen | {e.id}) + '[]'
+            defs = [a.value for a in inner]
+        elif it is None and not defs:
+            it = loop_binding(list(ast.walk(f.node)))
+            if it is not None:
+                return canon(f, it, depth + 1, _seen | {e.id}) + '[]'
+        defs = [d for d in defs if not (isinstance(d, ast.Constant)
+                                        and d.value is None)]
+        if len(defs) == 1:
+            return canon(f, defs[0], depth + 1, _seen | {e.id})
+        if defs:
+            return '{%s}' % '|'.join(sorted(
+                canon(f, d, depth + 1, _seen | {e.id}) for d in defs))
+        d = None
+        try:
+            d = f.module and None
+        except Exception:
+            pass
+        return 'global:' + e.id
+    if isinstance(e, ast.Attribute):
+        return canon(f, e.value, depth + 1, _seen) + '.' + e.attr
+    if isinstance(e, ast.Subscript):
+        if isinstance(e.slice, ast.Constant) and isinstance(
+                e.slice.value, str):
+            return canon(f, e.value, depth + 1, _seen) + '[%r]' % \
+                e.slice.value
+        return canon(f, e.value, depth + 1, _seen) + '[]'
+    if isinstance(e, ast.Call):
+        fn = e.func.attr if isinstance(e.func, ast.Attribute) else (
+            e.func.id if isinstance(e.func, ast.Name) else '?')
+        return '%s(%s)' % (fn, ','.join(canon(f, a, depth + 1, _seen)
+                                        for a in e.args))
+    if isinstance(e, ast.BinOp):
+        return '(%s%s%s)' % (canon(f, e.left, depth + 1, _seen),
+                             type(e.op).__name__,
+                             canon(f, e.right, depth + 1, _seen))
+    if isinstance(e, ast.IfExp):
+        return '{%s|%s}' % tuple(sorted([
+            canon(f, e.body, depth + 1, _seen),
+            canon(f, e.orelse, depth + 1, _seen)]))
+    return type(e).__name__
